@@ -289,3 +289,9 @@ func RunReplay(t *testing.T, reg map[string]func()) {
 // decoder is an environment stub there). The native run decodes the real bytes; the harness
 // passes bytes that decode to the same value.
 func DecodesTo(v interface{}, err error) {}
+
+// SnapshotGlobals / GlobalsUnchanged: under gosym, a deep digest of the package-level variables
+// of pkg is taken and compared (hidden state that survives a call). Natively they are no-ops
+// (GlobalsUnchanged reports true): the observation exists only in the engine.
+func SnapshotGlobals(pkg string)       {}
+func GlobalsUnchanged(pkg string) bool { return true }
